@@ -33,10 +33,10 @@ def run(ctx):
                                oracle, corr, name="llprun", seed_offset=172))
     r = codec.merge(rs)
     r["rule"] = ("llpcomb: families of 1..9 labelings (all distinct, single class, few classes, sparse labels, blocks, "
-                 "permutations, random; repeated labelings) of 1..160 nodes (a few of 2000..6000) with tied/negative/"
+                 "permutations, random; repeated labelings) of 1..160 nodes (a few of 2000..4000) with tied/negative/"
                  "fractional costs, written to a work directory and combined in pools of 1..16 threads, plus a malformed "
                  "stream (empty directory, zero nodes, length mismatch, label out of range, missing cost, foreign files); "
-                 "llpranks/llpinv: label vectors (not necessarily node ids) and permutations of 0..160 (a few of 2000..8000) "
+                 "llpranks/llpinv: label vectors (not necessarily node ids) and permutations of 0..160 (a few of 2000..5000) "
                  "elements; llprun: real LLP runs on symmetric loopless graphs (path, cycle, clique, star, disjoint/chained "
                  "cliques, empty, grid, sparse, dense, two parts) of 1..240 nodes x 1..5 gammas x seeds x node/arc "
                  "granularities x 5 stopping predicates x identity/murmur update order x both entry points x pools 1..16, "
